@@ -15,7 +15,8 @@
 (*                        expand such states; recorded traces cover them)  *)
 (*         ns  : Nat      ghost: macros saved so far, capped at 9 (bounds   *)
 (*                        the exhaustive instances)                        *)
-(*         pn  : STRING   panic site reached ("" = none) ]                 *)
+(*         pn  : STRING   panic site reached ("" = none; no site is left   *)
+(*                        since fix 72e2986) ]                             *)
 (*   RecordState = [id, wait : <<>> | <<[k, c]>>, items, delay]            *)
 (*   ReplayState = [active : SUBSET Nat, rem : Nat, items : Seq(Item)]     *)
 (*   Item = [k : "p" Press | "r" Release | "e" EndMacro, c : code | id, d] *)
@@ -83,23 +84,21 @@ DmSave(D, id, ia) == [D EXCEPT !.mac = DmPut(@, id, ia.items), !.amb = @ \/ ia.a
 \* src: dynamic_macro.rs:159-202 begin_record_macro (+ mod.rs DynamicMacroRecord arm: insert)
 DmBeginRecord(D, id) ==
   IF D.rec = <<>> THEN [D EXCEPT !.rec = <<DmNewRec(id)>>]
-  ELSE LET r == DmFlush(D.rec[1]) IN
-       \* 183: `macro_items.remove(macro_items.len() - 1)` with nothing recorded
-       IF r.items = <<>> THEN [D EXCEPT !.rec = <<>>, !.pn = "dynamic_macro.rs:183"]
-       ELSE LET ia == DmAddReleases(SubSeq(r.items, 1, Len(r.items) - 1))
-                D1 == DmSave(D, r.id, ia)
-            IN [D1 EXCEPT !.rec = IF r.id = id THEN <<>> ELSE <<DmNewRec(id)>>]
+  ELSE LET r == DmFlush(D.rec[1])
+           \* 185 `macro_items.pop()`: the last item, "almost certainly" the record key's own press; nothing
+           \* may have been recorded yet (fix 72e2986: was remove(len() - 1), a panic on an empty recording)
+           ia == DmAddReleases(SubSeq(r.items, 1, DmSatSub(Len(r.items), 1)))
+           D1 == DmSave(D, r.id, ia)
+       IN [D1 EXCEPT !.rec = IF r.id = id THEN <<>> ELSE <<DmNewRec(id)>>]
 
 \* src: dynamic_macro.rs:242-278 stop_macro (+ mod.rs DynamicMacroRecordStop arm: insert)
 DmStopMacro(D, n) ==
   IF D.rec = <<>> THEN D
-  ELSE LET r == DmFlush(D.rec[1]) IN
-       \* 262: `macro_items.remove(macro_items.len() - 1)` with nothing recorded
-       IF r.items = <<>> THEN [D EXCEPT !.rec = <<>>, !.pn = "dynamic_macro.rs:262"]
-       ELSE LET body == SubSeq(r.items, 1, Len(r.items) - 1)
-                kept == SubSeq(body, 1, DmSatSub(Len(body), n))       \* truncate(len.saturating_sub(n))
-                D1 == DmSave(D, r.id, DmAddReleases(kept))
-            IN [D1 EXCEPT !.rec = <<>>]
+  ELSE LET r == DmFlush(D.rec[1])
+           body == SubSeq(r.items, 1, DmSatSub(Len(r.items), 1))     \* 265 `macro_items.pop()` (fix 72e2986)
+           kept == SubSeq(body, 1, DmSatSub(Len(body), n))           \* truncate(len.saturating_sub(n))
+           D1 == DmSave(D, r.id, DmAddReleases(kept))
+       IN [D1 EXCEPT !.rec = <<>>]
 
 \* src: dynamic_macro.rs:204-233 record_press (+ mod.rs handle_input_event: insert).  The size check
 \* looks at the stored items only; on overflow neither the pending event nor this press is kept.
